@@ -148,9 +148,11 @@ func panicClass(method, msg string, unchanged bool, bias string, cur *model.Deci
 		return "owa-merge"
 	case method == "choquetIntegral" && strings.Contains(msg, "already exist"):
 		return "choquet-merge"
-	case strings.Contains(msg, "already exist"):
-		return "name-collision"
 	case !unchanged:
+		// includes the id collision of a repeated mixing of the same pair ("__c1+c2__ ... already exists"):
+		// the second mixing still selects on `original` although `current` already holds that criterion.
+		// Criteria.NotUsedName (concealment, anchoring) counts on until the id is unused, so a generated
+		// name cannot collide; an "already exists" panic on an unchanged state stays unexpected ("").
 		return bias + "-after-state-change"
 	}
 	return ""
